@@ -53,7 +53,7 @@ MyersExplains(cfg, s, e) ==            \* s = state after the event (the cache)
       \* the object copied in the middle of its history (clone, clone_from into a used object of
       \* another pattern, Debug formatting): must not fail; the events that follow are answered
       \* by the copy or by the original (a.on) and are judged like all others
-      [] c.op \in {"clone", "clone_from", "debug"} -> r.st = "ok"
+      [] c.op \in {"clone", "clone_from", "debug", "rebuild"} -> r.st = "ok"   \* rebuild: same configuration, fresh builder
       \* the result iterator forked after j items: both continuations give the remaining hits
       [] c.op = "find_all_end_fork" ->
            LET h == HitsOfRow(s[c.a.ti], c.a.k) IN
